@@ -179,7 +179,7 @@ def draw_case(draw):
                  # the flat list as a pysnark Array (element writes in place, like a list; native twin keeps a list)
                  "l_is_array": draw(st.booleans())}
     return {"nvars": g.nvars, "nin": g.nin, "nbool": g.nbool, "init": init, "init_secret": init_secret,
-            "body": body, "a": va, "b": vb, "bitlength": 32, "lists": lists, "in_function": draw(st.integers(0, 3)) == 0,
+            "body": body, "a": va, "b": vb, "bitlength": 32, "lists": lists, "in_function": draw(st.integers(0, 3)) == 0, "explicit_ctx": draw(st.integers(0, 3)) == 0,
             "names": [draw(st.sampled_from(["x%d", "x%d", "_x%d", "__x%d", "x%d_", "X%d", "acc%d", "_%d"])) % i for i in range(g.nvars)]}
 
 
@@ -245,6 +245,7 @@ def render(case, obl):
     src = _render(case, obl)
     if case.get("names"):
         src = re.sub(r"_\.x(\d+)\b", lambda mo: "_." + vname(case, int(mo.group(1))), src)
+    src = src.replace("_CTXNAME_", "__" if (obl and case.get("in_function")) else "_")
     if obl and case.get("in_function"):
         # the documented helper-function idiom (examples/branch2.py, test()): the function has its own context under
         # another name while the module keeps its own `_`
@@ -256,6 +257,9 @@ def render(case, obl):
 
 def _render(case, obl):
     L = []
+    # the context handed over explicitly (ctx=...) instead of being looked up in the caller's frame
+    CX1 = "ctx=_CTXNAME_" if case.get("explicit_ctx") else ""
+    CX2 = ", ctx=_CTXNAME_" if case.get("explicit_ctx") else ""
 
     def emit(ind, s):
         L.append("    " * ind + s)
@@ -280,18 +284,18 @@ def _render(case, obl):
                 if new:
                     emit(ind_, "_.n%d = %s" % (new["new"], r_expr(new["exprs"][i], obl)))
             if obl:
-                emit(ind, "if _if(%s):" % r_cond(arms[0][0], obl))
+                emit(ind, "if _if(%s%s):" % (r_cond(arms[0][0], obl), CX2))
                 newvar(0, ind + 1)
                 block(arms[0][1], ind + 1)
                 for i, (c, blk) in enumerate(arms[1:]):
-                    emit(ind, "if _elif(lambda: %s):" % r_cond(c, obl))
+                    emit(ind, "if _elif(lambda: %s%s):" % (r_cond(c, obl), CX2))
                     newvar(i + 1, ind + 1)
                     block(blk, ind + 1)
                 if els:
-                    emit(ind, "if _else():")
+                    emit(ind, "if _else(%s):" % CX1)
                     newvar(len(arms), ind + 1)
                     block(els, ind + 1)
-                emit(ind, "_endif()")
+                emit(ind, "_endif(%s)" % CX1)
             else:
                 emit(ind, "if %s:" % r_cond(arms[0][0], obl))
                 newvar(0, ind + 1)
@@ -311,25 +315,25 @@ def _render(case, obl):
             k = "k%d" % cid
             emit(ind, "%s = 0" % k)
             if obl:
-                emit(ind, "while _while(%s) and %s != %d:" % (r_cond(c, obl), k, m))
+                emit(ind, "while _while(%s%s) and %s != %d:" % (r_cond(c, obl), CX2, k, m))
             else:
                 emit(ind, "while %s != %d and %s:" % (k, m, r_cond(c, obl)))
             block(body[:pos], ind + 1)
             if brk is not None:
                 if obl:
-                    emit(ind + 1, "_breakif(B(%s))" % r_cond(brk, obl))
+                    emit(ind + 1, "_breakif(B(%s)%s)" % (r_cond(brk, obl), CX2))
                 else:
                     emit(ind + 1, "if %s: break" % r_cond(brk, obl))
             block(body[pos:], ind + 1)
             emit(ind + 1, "%s += 1" % k)
             if obl:
-                emit(ind, "_endwhile()")
+                emit(ind, "_endwhile(%s)" % CX1)
         elif t == "for":
             _, opts, m, lv, body, chk, brk, pos, cid = s
             opts = opts or {}
             start = "%d, " % opts["start"] if "start" in opts else ""
             if obl:
-                rng = "_range(%ss%d, max=%d%s)" % (start, cid, m, ", checkstopmax=True" if chk else "")
+                rng = "_range(%ss%d, max=%d%s%s)" % (start, cid, m, ", checkstopmax=True" if chk else "", CX2)
             else:
                 rng = "range(%ss%d)" % (start, cid)
             if "reuse" in opts:
@@ -341,14 +345,14 @@ def _render(case, obl):
             block(body[:pos], ind + 1)
             if brk is not None:
                 if obl:
-                    emit(ind + 1, "_breakif(B(%s))" % r_cond(brk, obl))
+                    emit(ind + 1, "_breakif(B(%s)%s)" % (r_cond(brk, obl), CX2))
                 else:
                     emit(ind + 1, "if %s: break" % r_cond(brk, obl))
             block(body[pos:], ind + 1)
             if not body and brk is None:
                 emit(ind + 1, "pass")
             if obl:
-                emit(ind, "_endfor()")
+                emit(ind, "_endfor(%s)" % CX1)
     block(case["body"], 0)
     return "\n".join(L) + "\n"
 
@@ -519,6 +523,8 @@ def kinds_in(case):
             out.add("array-variable")
     if case.get("in_function"):
         out.add("in-function-with-own-context")
+    if case.get("explicit_ctx"):
+        out.add("explicit-ctx-argument")
     src = render(case, True)
     if "lambda: (" in src or "(lambda:" in src:
         out.add("lazy-ite")
